@@ -21,6 +21,21 @@ C14 driver.  Lines of a case (see harness/src/c14.rs):
   remove_node n                              => some <label> | none
   clone                                      => ok
   order | pos | gpx <l> | at lo hi | range <b> <b> | valid      the dump
+  validp                                     => a:b:r,…   is_valid_edge of SOME pairs (big graphs, `fam=ncap`), judged like `valid`
+  validx a:b,…                               => r,…       is_valid_edge with an absent endpoint, each on a fresh clone (exact only)
+  <insertion> a b w full                     the inner graph is at its edge limit (observed on a clone of `inner()`); run on a dropped clone
+  add_node <label>                           => panic     only at the node limit of the index type (tried on a clone, the object is untouched)
+  snap | swap | clonefrom in|out | take      => ok        the second object of the case (wave 6)
+  law <name…>                                => ok | VIOLATED <why>   a law the harness checked against the implementation itself
+
+Wave 6.  The case line carries `ix=u8|u16|u32|usize` (index limit of the storage models), `fam=` (generator family) and
+`profile=debug|release` (only the C02 storage model has build-dependent behaviour: its `debug_assert!`s; the mirror
+model of `acyclic.rs` keeps every `debug_assert!` as an error in both profiles — none is reachable from a `Safe` state,
+`C14_no_panic_step`, so the expected answers of the two profiles coincide on every judged state).
+Two objects: `other` is the mirror state (model, view, replayed machine, last dump) of the harness's second
+`Acyclic`; `snap` copies the current one into it, `swap` exchanges them, `clonefrom in` overwrites the current one by
+`other` (`clone_from`), `clonefrom out` the other way round, `take` moves the current one into `other` and leaves a
+`Default` one.  The graph line and the dump that follow must be those of the object that is current now.
 
 The mirror model (`Acy`) runs on the view of the last graph line; the spec-level judges (`Dag`) run on
 the abstract graph of that view.  A mutating call sets `pend`: what the NEXT graph line has to be
@@ -58,6 +73,24 @@ inductive Pend where
   | remNode (n : Nat)
   deriving Repr, Inhabited
 
+/-- the mirror state of ONE `Acyclic` object (wave 6: a case has two) -/
+structure Obj where
+  have_ : Bool := false
+  lost : Bool := false
+  v : View := default
+  vok : Bool := false
+  lab : List (Nat × Nat) := []
+  gline : String := ""
+  m : AState := {}
+  lastOrder : String := ""
+  lastPos : String := ""
+  lastValid : String := ""
+  implOrder : List Nat := []
+  implPos : List (Nat × Nat) := []
+  ag : Option AcyG.AG := none
+  as : Option AcyS.AS := none
+  rnote : String := ""
+
 structure DState where
   stable : Bool := false
   have_ : Bool := false              -- an `Acyclic` object exists
@@ -75,9 +108,37 @@ structure DState where
   implOrder : List Nat := []
   implPos : List (Nat × Nat) := []
   endv : Nat := 4294967295           -- `Ix::max()` of the case
+  noLimit : Bool := false            -- `Ix = usize`: `Ix::max().index() == !0`, the index-limit assertions are vacuous
+  dbg : Bool := true                 -- `profile=debug`
   ag : Option AcyG.AG := none        -- replay of `Acyclic<DiGraph>` over the C01 storage model
   as : Option AcyS.AS := none        -- replay of `Acyclic<StableDiGraph>` over the C02 storage model
   rnote : String := ""               -- why the replay was abandoned (reported at the next graph line)
+  other : Option Obj := none         -- the second object of the case (wave 6)
+
+def DState.obj (d : DState) : Obj :=
+  { have_ := d.have_, lost := d.lost, v := d.v, vok := d.vok, lab := d.lab, gline := d.gline, m := d.m,
+    lastOrder := d.lastOrder, lastPos := d.lastPos, lastValid := d.lastValid, implOrder := d.implOrder,
+    implPos := d.implPos, ag := d.ag, as := d.as, rnote := d.rnote }
+
+/-- make `o` the current object; the next graph line and dump must be `o`'s last ones -/
+def DState.load (d : DState) (o : Obj) : DState :=
+  { d with have_ := o.have_, lost := o.lost, v := o.v, vok := o.vok, lab := o.lab, gline := o.gline, m := o.m,
+           lastOrder := o.lastOrder, lastPos := o.lastPos, lastValid := o.lastValid, implOrder := o.implOrder,
+           implPos := o.implPos, ag := o.ag, as := o.as, rnote := o.rnote, pend := .same, mustSame := true }
+
+def endvOf (rest : List String) : Nat :=
+  if rest.contains "ix=u8" then 255 else if rest.contains "ix=u16" then 65535
+  else if rest.contains "ix=usize" then 18446744073709551615 else 4294967295
+
+/-- `validx` pairs `a:b,…` -/
+def parseAB (s : String) : List (Nat × Nat) :=
+  if s == "-" then [] else
+  (s.splitOn ",").filterMap fun t =>
+    match t.splitOn ":" with
+    | [a, b] => match a.toNat?, b.toNat? with
+      | some a, some b => some (a, b)
+      | _, _ => none
+    | _ => none
 
 def labelOf (lab : List (Nat × Nat)) (i : Nat) : Nat := (lab.lookup i).getD (1000000 + i)
 
@@ -116,6 +177,13 @@ def showValid (l : List (Nat × Nat × String)) : String :=
 /-- the model's `valid` line: every ordered pair of live nodes, scratch state threaded through -/
 def modelValid (v : View) (m : AState) : AState × List (Nat × Nat × String) :=
   (v.g.nodes.flatMap fun a => v.g.nodes.map fun b => (a, b)).foldl (fun (acc : AState × List (Nat × Nat × String)) (ab : Nat × Nat) =>
+    match isValidEdge v acc.1 ab.1 ab.2 with
+    | .ok (m', r) => (m', acc.2 ++ [(ab.1, ab.2, if r then "1" else "0")])
+    | .error _ => (acc.1, acc.2 ++ [(ab.1, ab.2, "p")])) (m, [])
+
+/-- the model's answers for the listed pairs, scratch state threaded through (`validp`) -/
+def modelValidPairs (v : View) (m : AState) (pairs : List (Nat × Nat)) : AState × List (Nat × Nat × String) :=
+  pairs.foldl (fun (acc : AState × List (Nat × Nat × String)) (ab : Nat × Nat) =>
     match isValidEdge v acc.1 ab.1 ab.2 with
     | .ok (m', r) => (m', acc.2 ++ [(ab.1, ab.2, if r then "1" else "0")])
     | .error _ => (acc.1, acc.2 ++ [(ab.1, ab.2, "p")])) (m, [])
@@ -216,15 +284,35 @@ def isAccept (impl : String) : Bool := impl.startsWith "ok" || impl.startsWith "
 def step (d : DState) (req : List String) (impl : String) : DState × String :=
   match req with
   | "case" :: k :: rest =>
-    ({ stable := rest.contains "kind=s", endv := if rest.contains "ix=u8" then 255 else 4294967295 }, s!"case {k}")
-  | ["new"] =>
+    ({ stable := rest.contains "kind=s", endv := endvOf rest, noLimit := rest.contains "ix=usize",
+       dbg := !(rest.contains "profile=release") }, s!"case {k}")
+  | "new" :: _ =>                          -- `new` / `new default` (`Default::default()`)
     ({ d with have_ := true, lost := false, m := {}, pend := .empty, mustSame := false, rnote := "",
               ag := if d.stable then none else some (AcyG.AG.new d.endv 0),
-              as := if d.stable then some (AcyS.AS.new d.endv false true 0) else none }, cmpExact "ok" impl)
+              as := if d.stable then some (AcyS.AS.new d.endv d.noLimit d.dbg 0) else none }, cmpExact "ok" impl)
   | ["withcap", n, _] =>
     ({ d with have_ := true, lost := false, m := withCapacity (n.toNat?.getD 0), pend := .empty, mustSame := false, rnote := "",
               ag := if d.stable then none else some (AcyG.AG.new d.endv (n.toNat?.getD 0)),
-              as := if d.stable then some (AcyS.AS.new d.endv false true (n.toNat?.getD 0)) else none }, cmpExact "ok" impl)
+              as := if d.stable then some (AcyS.AS.new d.endv d.noLimit d.dbg (n.toNat?.getD 0)) else none }, cmpExact "ok" impl)
+  | "law" :: name =>
+    -- a law the harness checked against the implementation itself (iterator laws, pass-through traits against
+    -- `inner()`, Clone / clone_from / Default / Debug, petgraph's own algorithms on `&Acyclic<G>`)
+    (d, if impl == "ok" then "ok" else s!"SPECFAIL law [{String.intercalate " " name}] does not hold: {impl}")
+  | ["snap"] => ({ d with other := some d.obj, pend := .same, mustSame := true }, cmpExact "ok" impl)
+  | ["clonefrom", "out"] => ({ d with other := some d.obj, pend := .same, mustSame := true }, cmpExact "ok" impl)
+  | ["swap"] =>
+    match d.other with
+    | some o => ({ d.load o with other := some d.obj }, cmpExact "ok" impl)
+    | none => (d, "SPECFAIL bad request swap (no second object)")
+  | ["clonefrom", "in"] =>
+    match d.other with
+    | some o => (d.load o, cmpExact "ok" impl)
+    | none => (d, "SPECFAIL bad request clonefrom (no second object)")
+  | ["take"] =>
+    ({ d with other := some d.obj, have_ := true, lost := false, m := {}, pend := .empty, mustSame := false, rnote := "",
+              v := default, vok := false, lab := [], gline := "",
+              ag := if d.stable then none else some (AcyG.AG.new d.endv 0),
+              as := if d.stable then some (AcyS.AS.new d.endv d.noLimit d.dbg 0) else none }, cmpExact "ok" impl)
   | "graph" :: _ =>
     let line := String.intercalate " " req
     match parseView req with
@@ -291,7 +379,7 @@ def step (d : DState) (req : List String) (impl : String) : DState × String :=
       let freeE := parseNats ((field? req "fe").getD "-")
       let nl := ((field? req "nl").bind (·.toNat?)).getD 0
       let el := ((field? req "el").bind (·.toNat?)).getD 0
-      let s0 := AcyS.ofView v (labelOf d.lab) d.endv freeN freeE nl el
+      let s0 := { AcyS.ofView v (labelOf d.lab) d.endv freeN freeE nl el with noLimit := d.noLimit, debug := d.dbg }
       let (as, rnote) : Option AcyS.AS × String :=
         if !d.stable || !implOk then (none, rnote) else
         if !(AcyS.freeListsFit v freeN freeE nl el) then (none, "the reported free lists are not the vacant slots") else
@@ -314,13 +402,25 @@ def step (d : DState) (req : List String) (impl : String) : DState × String :=
   | ["clone"] => ({ d with pend := .same, mustSame := true }, cmpExact "ok" impl)
   | ["add_node", l] =>
     let l := l.toNat?.getD 0
+    -- the documented panic of the inner graph at the node limit of its index type (`Ix::max()` is reserved): exactly
+    -- when every index below the limit is live; the harness tried it on a clone, the object is untouched
+    let atLimit := !d.noLimit && d.v.g.nodes.length ≥ d.endv
+    if impl == "panic" then
+      ({ d with pend := .same, mustSame := true },
+        verdict (if atLimit then none else some s!"add_node panicked although only {d.v.g.nodes.length} of {d.endv} indices are in use") "panic" impl)
+    else
     match impl.toNat? with
     | none => (d, s!"SPECFAIL add_node answered {impl}")
     | some i =>
-      let spec := if live d.v i then some s!"add_node returned index {i} which is already live" else none
+      let spec := if live d.v i then some s!"add_node returned index {i} which is already live"
+        else if !d.noLimit && i ≥ d.endv then some s!"add_node returned index {i}, not below the limit {d.endv} of the index type" else none
       let model := if d.stable then toString i else toString d.v.nb
       (replay { d with pend := .addNode l i, mustSame := false } (.addNode l), verdict spec model impl)
-  | [op, a, b, w] =>
+  | op :: a :: b :: w :: fl =>
+    -- `full`: the harness observed (on a clone of `inner()`) that the inner graph's `add_edge` panics at the edge limit
+    -- of its index type; the call ran on a clone that was dropped
+    let full := fl == ["full"]
+    if !(fl.isEmpty || full) then (d, s!"SPECFAIL bad request {req}") else
     let a := a.toNat?.getD 0
     let b := b.toNat?.getD 0
     let w := w.toInt?.getD 0
@@ -329,11 +429,16 @@ def step (d : DState) (req : List String) (impl : String) : DState × String :=
     if !(isTry || op == "add_edge" || op == "update_edge") then (d, s!"SPECFAIL bad request {req}") else
     let both := live d.v a && live d.v b
     let implEid := ((impl.splitOn " ").getD 1 "?")
+    -- at the edge limit only `update_edge` of an existing edge gets past the inner graph
+    let fits := !full || (isUpd && d.v.g.edges.any fun ed => ed.src == a && ed.tgt == b)
+    -- G-A (wave 6): for `Graph` the claim `full` is checkable on the graph line: every edge index below the limit is in use
+    if full && !d.stable && !(!d.noLimit && d.v.g.edges.length ≥ d.endv) then
+      (d, s!"SPECFAIL side condition edge-limit does not hold: the inner Graph refused an edge with {d.v.g.edges.length} of {d.endv} edge indices in use") else
     -- mirror model
     let (m', modelS, modelAcc) : AState × String × Bool :=
       match tryAddEdge d.v d.m a b with
       | .error _ => (d.m, "panic", false)
-      | .ok (m', .accepted) => (m', (if op == "add_edge" then "some " else "ok ") ++ implEid, true)
+      | .ok (m', .accepted) => if fits then (m', (if op == "add_edge" then "some " else "ok ") ++ implEid, true) else (m', "panic", false)
       | .ok (m', .selfLoop) => (m', if isTry then "err selfloop" else if op == "add_edge" then "none" else "panic", false)
       | .ok (m', .cycle n) => (m', if isTry then s!"err cycle {n}" else if op == "add_edge" then "none" else "panic", false)
     -- specification
@@ -345,6 +450,8 @@ def step (d : DState) (req : List String) (impl : String) : DState × String :=
         | none => none
         | some rej =>
           if rej && acc then some s!"{op}({a},{b}) was accepted although it {if a == b then "is a self-loop" else "closes a cycle"}"
+          else if !rej && !fits then
+            (if impl == "panic" then none else some s!"{op}({a},{b}) answered [{impl}] although the inner graph is at its edge limit (its add_edge panics)")
           else if !rej && !acc then some s!"{op}({a},{b}) was refused ({impl}) although it neither is a self-loop nor closes a cycle"
           else if rej then
             let want := if isTry then (if a == b then "err selfloop" else "err cycle") else if op == "add_edge" then "none" else "panic"
@@ -357,7 +464,7 @@ def step (d : DState) (req : List String) (impl : String) : DState × String :=
               then some s!"{op}({a},{b}) returned edge {e} which is not an existing {a}->{b} edge" else none
             | none => some s!"{op}({a},{b}) accepted without an edge id"
           else none
-    if both then
+    if both && !full then
       let pend := if acc then (if isUpd then Pend.updEdge a b w else Pend.addEdge a b w) else Pend.same
       (replay { d with m := m', lost := modelAcc != acc, pend := pend, mustSame := !acc }
         (if isUpd then .tryUpdateEdge a b w.toNat else .tryAddEdge a b w.toNat), verdict spec modelS impl)
@@ -426,6 +533,24 @@ def step (d : DState) (req : List String) (impl : String) : DState × String :=
     match safeWhyOpt d.v m' with
     | some why => ({ d with m := m', lastValid := impl, mustSame := false }, why)
     | none => ({ d with m := m', lastValid := impl, mustSame := false }, verdict spec (showValid mv) impl)
+  | ["validp"] =>
+    -- a sample of pairs (big graphs): the pairs are those of the answer
+    match parseValid impl with
+    | none => (d, "SPECFAIL is_valid_edge panicked on a pair of live nodes (or malformed answer)")
+    | some l =>
+      if !(l.all fun (a, b, _) => live d.v a && live d.v b) then (d, "SPECFAIL bad request validp (a pair with an absent node)") else
+      let (m', mv) := modelValidPairs d.v d.m (l.map fun (a, b, _) => (a, b))
+      match safeWhyOpt d.v m' with
+      | some why => ({ d with m := m', mustSame := false }, why)
+      | none => ({ d with m := m', mustSame := false }, verdict (judgeValid d.v.g l) (showValid mv) impl)
+  | ["validx", ps] =>
+    -- is_valid_edge with an absent endpoint, each call on a fresh clone: nothing is determined by the property
+    -- (a documented panic, or an answer from a stale order entry); exact comparison with the mirror model only
+    let model := (parseAB ps).map fun (a, b) =>
+      match isValidEdge d.v d.m a b with
+      | .ok (_, r) => if r then "1" else "0"
+      | .error _ => "p"
+    (d, cmpExact (String.intercalate "," model) impl)
   | _ => (d, s!"SPECFAIL bad request {req}")
 
 end PetgraphModel.C14
